@@ -1,4 +1,4 @@
 SPECIFICATION Spec
-INVARIANTS P_C07_OwnIdentityOnly P_C07_UnattributedRefused P_C07_AttributedServed
+INVARIANTS P_C07_OwnIdentityOnly P_C07_UnattributedRefused P_C07_AttributedServed P_C07_DeadDestination
 POSTCONDITION Accepted
 CHECK_DEADLOCK FALSE
